@@ -18,6 +18,12 @@ def sites():
     return _SITES
 
 
+def gen_granularity(rng):
+    """False = call/line/return events; "sites" = additionally every bytecode
+    inside functions that contain a write site."""
+    return "sites" if rng.random() < 0.3 else False
+
+
 def gen_policy(rng, n_threads, est_steps):
     roll = rng.random()
     if roll < 0.25:
@@ -77,7 +83,7 @@ def record(case, factory):
     sch = sched.Scheduler(
         n,
         policy=make_policy(case["policy"], random.Random(case["policy_seed"])),
-        opcodes=bool(case.get("opcodes")),
+        opcodes=case.get("opcodes") or False,
         step_cap=case.get("step_cap", sched.STEP_CAP),
     )
     sch.run(factory(sch), first=case.get("first", 0))
@@ -90,7 +96,7 @@ def replay(case, factory):
     sch = sched.Scheduler(
         n,
         segments=case["segments"],
-        opcodes=bool(case.get("opcodes")),
+        opcodes=case.get("opcodes") or False,
         keep_sites=True,
         step_cap=case.get("step_cap", sched.STEP_CAP),
     )
